@@ -354,7 +354,7 @@ protected:
     using SchVector = std::vector<SchItem>;
     SchVector _scheduled;
     std::mutex _mx;
-    std::condition_variable _cond;
+    std::condition_variable_any _cond;
     std::optional<GlobState> _glob_state;
     std::size_t _elide_state = 0;
 
@@ -402,12 +402,12 @@ protected:
                    if constexpr(have_pool) {
                        if (!pool->any_enqueued() && coro_queue::can_block()) {
                            COCLS_VERIF_POINT("sched_wait");
-                           _cond.wait_until(lk, x);
+                           _cond.wait_until(lk, state, x, [&]{return !_scheduled.empty() && _scheduled[0]._tp < x;});
                        }
                    } else {
                        if (coro_queue::can_block()) {
                            COCLS_VERIF_POINT("sched_wait");
-                           _cond.wait_until(lk, x);
+                           _cond.wait_until(lk, state, x, [&]{return !_scheduled.empty() && _scheduled[0]._tp < x;});
                        }
                    }
                }
